@@ -42,6 +42,29 @@ CLAIMED = {
         "validated by TLC (BigNat arithmetic in TLA+).",
         "Trusted: TLC, ndjson encodings (base-16807 limbs), driver.",
         "DESIGN.md 3.3, 5/C13"),
+    "C20": (
+        "TLC: nibble transducer for format/parse (all 16^16 words) + TLC trace validation of h3ToString/stringToH3 events",
+        "ToHex/FromHex are defined nibble-wise in TLA+ (H3Strings.tla); TLC exhausts the formatter's product automaton "
+        "(leading-zero skipping, lower case, each character decodes to its nibble, length law) for all words. Recorded "
+        "h3ToString calls with buffer sizes 0..32 (canaries, fill pattern), every bit position and leading-zero length, "
+        "cells/edges/vertexes/mutated/random words, the stringToH3 round trip of every produced string and 3000..30000 "
+        "arbitrary short byte strings are validated by TLC against the spec (Trace_C20.tla).",
+        "Trusted: TLC, driver, ndjson. Strings that start with white space / a sign or carry trailing text are "
+        "unconstrained on success (the property does not speak about them).",
+        "DESIGN.md 3.11, 5/C20"),
+    "C05": (
+        "TLC: whole-resolution neighbour graph as state space (r<=4/5) from a TLA+ transcription of h3NeighborRotations + TLC trace validation of all disk/ring calls against BFS",
+        "h3NeighborRotations is transcribed into TLA+ over the frozen design tables (H3Grid.tla); TLC explores the "
+        "complete graph of resolutions 0..4 (thorough: 5) as a state space and checks degree 6/5, distinctness, "
+        "symmetry, closure and the exact cell count 2+120*7^r. The reference semantics Disk/Ring/Dist = BFS on that "
+        "graph. Model->code: every cell of the model graph r<=2 is replayed as origin of all nine functions (k<=2) and "
+        "of areNeighborCells; code->model: pentagon disks, icosahedron-edge cells and random cells at r=3..15 (k<=5) and "
+        "k up to 60 at r<=1; TLC validates each event: safe functions = exact BFS disk with exact distances, no "
+        "duplicates, buffer = maxGridDiskSize; unsafe functions = error or disk in ring order / exact ring; "
+        "areNeighborCells = membership in N.",
+        "Trusted: TLC, the transcription (cross-checked by the whole-grid invariants and by every validated event), frozen "
+        "tables, driver, ndjson.",
+        "DESIGN.md 3.5, 5/C05"),
 }
 
 PENDING_REASON = "check not built yet in this round (work in progress; see DESIGN.md section 10 for the order of work)"
